@@ -56,11 +56,11 @@ func init() {
 			"The premise that these guards imply agreement is the safety proof of QBFT / the reference ssv-spec (trusted; C06 ties the node to the reference).",
 		Rules: []string{
 			"C01-R1 facts-before(store State.Decided / DecidedValue in ProcessMsg) ∋ decided(UponCommit); Ens(UponCommit|decided) ∋ quorum over (msg.Round, msg.Root)",
-			"C01-R2 Ens(validator|accept) ⊇ guard table (per message type)",
+			"C01-R2 Ens(validator|accept) ⊇ guard table (per message type); Ens(VerifyByOperators|accept) ⊇ {every signer found in the committee, aggregate check}",
 			"C01-R3 Ens(isProposalJustification|accept ∧ round≠1) ⊇ justification table",
 			"C01-R4 facts-before(effects of uponPrepare) ⊇ {fresh prepare quorum}; dispatch under ok(BaseMsgValidation)",
 			"C01-R5 who-may-call(AddMsg/AddFirst…) and who-may-write(State.*) allow-lists",
-			"C01-R6 config literals, proposer wiring, quorum normal form",
+			"C01-R6 config literals, proposer wiring, quorum normal form; every write of Share.Quorum / PartialQuorum = that normal form over len(own committee)",
 		},
 		Trusted: []string{"QBFT safety argument / ssv-spec reference algorithm (guards ⇒ agreement)", "herumi BLS", "go/types + go/ssa", "hand-confirmed guard tables (internal/rules/c01.go)"},
 		Assume:  []string{"config.VerifySignatures() is true in production (checked by R6 on the config literals) and is treated as true inside the instance package", "no kill set: a checked field is assumed not to be rewritten between check and use inside one handler (state writers are allow-listed by R5)"},
@@ -221,8 +221,8 @@ func runC01(c *core.Ctx) {
 	// ---------------- R4
 	up := inst + "uponPrepare"
 	fresh := []Req{
-		{"quorum-now", "T(ssv-spec/qbft.HasQuorum(p0.State.Share, ssv-spec/qbft.MsgContainer.MessagesForRound@2(p3, p0.State.Round)))", "commit stage requires a prepare quorum for the current round"},
-		{"no-quorum-before", "F(ssv-spec/qbft.HasQuorum(p0.State.Share, ssv-spec/qbft.MsgContainer.MessagesForRound(p3, p0.State.Round)))", "the commit is sent once, on the first quorum"},
+		{"quorum-now", "T(ssv-spec/qbft.HasQuorum(p0.State.Share, ssv-spec/qbft.MsgContainer.MessagesForRound@*(p3, p0.State.Round)))", "commit stage requires a prepare quorum for the current round"},
+		{"no-quorum-before", "F(ssv-spec/qbft.HasQuorum(p0.State.Share, ssv-spec/qbft.MsgContainer.MessagesForRound*(p3, p0.State.Round)))", "the commit is sent once, on the first quorum"},
 		{"first-from-signer", "T(ssv-spec/qbft.MsgContainer.AddFirstMsgForSignerAndRound(p3, p2)#0)", ""},
 		{"prepared-round-recorded-first", "stored(p0.State.LastPreparedRound, p0.State.Round)", "the lock on the prepared value must be recorded BEFORE the commit can leave the node: if the broadcast fails half-way the operator has committed but would later report 'not prepared', and the next leader may propose another value"},
 		{"prepared-value-recorded-first", "stored(p0.State.LastPreparedValue, p0.State.ProposalAcceptedForCurrentRound.FullData)", "the prepared value is the accepted proposal's data, recorded before the commit is created and sent"},
@@ -529,7 +529,7 @@ var _ = strings.Contains
 // the same share carries (swapped results give a quorum of f+1 after a reload from the database).
 func checkQuorumStores(c *core.Ctx, rule string) {
 	fixtures := map[string]string{
-		"github.com/bloxapp/ssv/protocol/v2/qbft.init":  "TestingShare fixture of the test utilities",
+		"github.com/bloxapp/ssv/protocol/v2/qbft.init":   "TestingShare fixture of the test utilities",
 		"ssv/protocol/v2/qbft/testing.TestingShare":      "test fixture built from a key set's thresholds",
 		"ssv/protocol/v2/ssv/validator.Validator.logMsg": "",
 	}
